@@ -20,8 +20,8 @@ claimed = {
 }
 STEP = "inductive single-step verification from an arbitrary invariant-satisfying state (symbolic ids/counters): histories of any length; data bounds only"
 claimed.update({
- "C15": dict(text="PARTIAL: bounded symbolic verification of Request.UnmarshalParams (strict / non-strict / RawMessage / wrong kind) and of the array-to-field translation; the reflect-based Check/Wrap path (the property's main clause) is not applicable to this technique and is NOT claimed.", ref="4 (C15), 5", note="reflect not modelled; json stub"),
- "C16": dict(text="PARTIAL: bounded symbolic verification of Args (decode/encode) and Obj (decode) at JSON-token level for all element kinds, slot kinds and map orders; Positional/NewPos (reflect.StructOf/MakeFunc) is not applicable and NOT claimed.", ref="4 (C16), 5", note="reflect not modelled; json stub; <= 3 slots"),
+ "C15": dict(text="Bounded symbolic verification of handler.Check / FuncInfo.Wrap executed from source over an engine model of package reflect (go/types-backed; Value.Call runs the real function): accepted/rejected signature shapes, exactly-once call with the decoded argument or InvalidParams without a call, strictness, array-to-field mapping, pass-through of results; plus UnmarshalParams and arrayStub.translate.", ref="9.2 (C15)", note="function shapes are enumerated (9+8), params symbolic; reflect is modelled (gosym/reflect.go); json stub"),
+ "C16": dict(text="Bounded symbolic verification of Positional (StructOf/FuncOf/MakeFunc through the reflect model, arity 2, symbolic params in array and object form), Args (decode/encode) and Obj (decode, every map order) at JSON-token level.", ref="9.2 (C16)", note="arity 2; reflect modelled; json stub"),
  "C18": dict(text="Bounded symbolic run of the real Bridge.ServeHTTP over a real server.Local (threads) with symbolic members/ids; response body parsed back and matched to the request's calls; two concurrent callers with identical ids.", ref="4 (C18)", note="<= 2 members (thorough 3); HTTP stack replaced by recorders; delay bound 2"),
  "C19": dict(text="Bounded symbolic verification of ParseQuery/ParseBasic value typing, totality and marshalability; the Getter's status mapping over a real Local; and a real Client over the real jhttp.Channel against a real Bridge through an in-process HTTPClient (results, body closing, no thread left after Close).", ref="4 (C19), 9.2", note="strconv/base64 via representative strings; ParseForm and http.NewRequest stubs; real net/http transport outside"),
  "C20": dict(text="Bounded symbolic run of the real Loop with real servers as engine threads over a scripted accepter; service/Finish accounting and return value asserted on every explored schedule.", ref="4 (C20)", note="<= 2 connections; delay bound 2; NetAccepter outside"),
